@@ -501,6 +501,8 @@ func (pr *Program) definesObligations() []*Obl {
 					}
 				}
 			}
+		case "readsState2":
+			// reads only the state reachable from its parameters; may write what its SMT-checked modifies clause allows
 		case "readsState":
 			if !fc.HasMod || len(fc.Modifies) != 0 {
 				why = append(why, "needs `modifies nothing`")
